@@ -255,6 +255,38 @@ type ValThenPtr struct {
 	W Inner  `json:"w"`
 }
 
+// An embedded POINTER to a struct of unexported type with a JSON name (marshaled under that name, null when nil).
+type EmbUnexportedPtrTagged struct {
+	*embPriv `json:"detail"`
+	N        int `json:"n"`
+}
+
+// The same Go field name promoted three times: at one depth all occurrences cancel each other (no such member at all);
+// a deeper later occurrence stays hidden too.
+type TriHead struct {
+	ID   string
+	Name string `json:"name"`
+}
+type TriBody struct {
+	ID   string
+	Size int `json:"size"`
+}
+type TriTail struct {
+	ID   string
+	Note string `json:"note"`
+}
+type TriAmbiguous struct {
+	TriHead
+	TriBody
+	TriTail
+}
+type TriBox struct{ TriTail }
+type TriDeepLater struct {
+	TriHead
+	TriBody
+	TriBox
+}
+
 // The same type several times.
 type Repeats struct {
 	A  Inner            `json:"a"`
@@ -450,6 +482,7 @@ var PlainData = []reflect.Type{
 	reflect.TypeFor[Scalars](), reflect.TypeFor[Tags](), reflect.TypeFor[Inner](), reflect.TypeFor[Pointers](), reflect.TypeFor[Containers](),
 	reflect.TypeFor[NamedKinds](), reflect.TypeFor[EmbByValue](), reflect.TypeFor[EmbByPointer](), reflect.TypeFor[EmbNested](), reflect.TypeFor[EmbUnexportedType](),
 	reflect.TypeFor[EmbTwo](), reflect.TypeFor[EmbShadowSame](), reflect.TypeFor[EmbDeep](), reflect.TypeFor[PtrThenVal](), reflect.TypeFor[ValThenPtr](), reflect.TypeFor[[]PtrThenVal](),
+	reflect.TypeFor[TriAmbiguous](), reflect.TypeFor[TriDeepLater](), reflect.TypeFor[[]TriAmbiguous](),
 	reflect.TypeFor[EmbNamedTag](), reflect.TypeFor[EmbNamedTagPtr](), reflect.TypeFor[EmbDashed](), reflect.TypeFor[EmbOptsOnly](), reflect.TypeFor[EmbNonStruct](), reflect.TypeFor[EmbNonStructPtr](),
 	reflect.TypeFor[EmbMap](), reflect.TypeFor[EmbUnexportedTagged](), reflect.TypeFor[EmbTaggedHoldsEmb](), reflect.TypeFor[EmbFlattenedHoldsTagged](), reflect.TypeFor[[]EmbNamedTag](), reflect.TypeFor[map[string]*EmbNonStruct](),
 	reflect.TypeFor[Empty](), reflect.TypeFor[OnlyOmitted](), reflect.TypeFor[HoldsEmpty](), reflect.TypeFor[Described](), reflect.TypeFor[struct{}](), reflect.TypeFor[map[string]struct{}](), reflect.TypeFor[[]Empty](),
@@ -467,7 +500,9 @@ var PlainData = []reflect.Type{
 }
 
 // WithStd are types using standard-library marshalers (C04 only) and the repeated-type struct.
-var WithStd = []reflect.Type{reflect.TypeFor[StdTypes](), reflect.TypeFor[Repeats](), reflect.TypeFor[time.Time](), reflect.TypeFor[*time.Time](), reflect.TypeFor[[]slog.Level](), reflect.TypeFor[map[string]time.Time]()}
+// (EmbUnexportedPtrTagged is marshal-only too: encoding/json panics when it DECODES into an embedded pointer to an unexported
+// struct that has a JSON name, so the type cannot serve C09.)
+var WithStd = []reflect.Type{reflect.TypeFor[EmbUnexportedPtrTagged](), reflect.TypeFor[[]EmbUnexportedPtrTagged](), reflect.TypeFor[StdTypes](), reflect.TypeFor[Repeats](), reflect.TypeFor[time.Time](), reflect.TypeFor[*time.Time](), reflect.TypeFor[[]slog.Level](), reflect.TypeFor[map[string]time.Time]()}
 
 // Pointer types that refer to themselves without any struct on the way.
 type SelfPtr *SelfPtr
@@ -475,8 +510,12 @@ type PtrA *PtrB
 type PtrB *PtrA
 type PtrSlice []*PtrSlice
 
+// Named ARRAY types that contain themselves.
+type PairRec [2]*PairRec
+type GridRec [3][]GridRec
+
 // Recursive types must make For return an error.
-var Recursive = []reflect.Type{reflect.TypeFor[SelfPtr](), reflect.TypeFor[PtrA](), reflect.TypeFor[*PtrB](), reflect.TypeFor[PtrSlice](), reflect.TypeFor[struct{ P SelfPtr }](), reflect.TypeFor[Rec](), reflect.TypeFor[RecSlice](), reflect.TypeFor[RecMap](), reflect.TypeFor[MutA](), reflect.TypeFor[MutB](), reflect.TypeFor[RecDeep](), reflect.TypeFor[[]*Rec](), reflect.TypeFor[map[string]MutA]()}
+var Recursive = []reflect.Type{reflect.TypeFor[PairRec](), reflect.TypeFor[GridRec](), reflect.TypeFor[struct{ G []GridRec }](), reflect.TypeFor[SelfPtr](), reflect.TypeFor[PtrA](), reflect.TypeFor[*PtrB](), reflect.TypeFor[PtrSlice](), reflect.TypeFor[struct{ P SelfPtr }](), reflect.TypeFor[Rec](), reflect.TypeFor[RecSlice](), reflect.TypeFor[RecMap](), reflect.TypeFor[MutA](), reflect.TypeFor[MutB](), reflect.TypeFor[RecDeep](), reflect.TypeFor[[]*Rec](), reflect.TypeFor[map[string]MutA]()}
 
 // Unsupported types must make For return an error, or be pruned with IgnoreInvalidTypes.
 var Unsupported = []reflect.Type{reflect.TypeFor[BadChan](), reflect.TypeFor[BadFunc](), reflect.TypeFor[BadComplex](), reflect.TypeFor[BadMapKey](), reflect.TypeFor[BadDeep](), reflect.TypeFor[BadTagged](), reflect.TypeFor[[]BadTagged](), reflect.TypeFor[TwiceBad](), reflect.TypeFor[[]*TwiceBad](), reflect.TypeFor[map[string]TwiceBad](), reflect.TypeFor[NamedFunc](), reflect.TypeFor[[2]NamedChan](), reflect.TypeFor[chan int](), reflect.TypeFor[func()](),
